@@ -18,6 +18,7 @@ Loops that Go runs "until the pointer comes back" (`Len`, `Do`) carry a fuel equ
 `KitProofs` shows that fuel suffices for every well-formed ring.
 -/
 import KitModel.Go.Prelude
+import KitModel.Containers
 namespace Kit.Ring
 
 structure Node (α : Type) where
@@ -358,5 +359,52 @@ def Buf.run (b : Buf) : List BOp → List BOut
 def Queue.run (q : List (Option Nat)) : List BOp → List BOut
   | [] => []
   | op :: ops => let (q', o) := Queue.step q op; o :: Queue.run q' ops
+
+/-! ### the same, with thresholds / offsets / guards taken from the facts extracted from the
+source (`factgen_c14`): this is what the driver runs, so the differential follows the source;
+`KitProofs` shows that with the expected facts it is the model above. -/
+section facts
+open Kit.Containers (BufferedFacts)
+
+def exceeds (strict : Bool) (a b : Int) : Bool := if strict then decide (a > b) else decide (a ≥ b)
+
+def Buf.newF (F : BufferedFacts) (initial bsize : Int) : Buf :=
+  let initial := if initial < F.minInitial then F.minInitial else initial
+  let bsize := if bsize < F.minBuffer then F.minBuffer else bsize
+  match Ring.new (#[] : Heap (Option Nat)) initial none with
+  | (h, some r) => { heap := h, ring := r, «end» := F.endInit, bsize := bsize }
+  | (h, none) => { heap := h, ring := 0, «end» := F.endInit, bsize := bsize }
+
+def Buf.appendBackF (F : BufferedFacts) (b : Buf) (value : Option Nat) : Buf :=
+  let h :=
+    if (if F.growWhenEndGeLen then decide (b.end ≥ (Ring.len b.heap b.ring : Int)) else decide (b.end > (Ring.len b.heap b.ring : Int))) then
+      let (h, s) := Ring.new b.heap b.bsize none
+      (link h (move h b.ring (b.end + F.growAt)) s).1
+    else b.heap
+  let h := setVal h (move h b.ring b.end) value
+  { b with heap := h, «end» := b.end + 1 }
+
+def Buf.removeFrontF (F : BufferedFacts) (b : Buf) : Buf × Option Nat :=
+  if F.emptyGuard = true ∧ b.end = 0 then (b, none)
+  else
+    let h := setVal b.heap b.ring none
+    let r := nx h b.ring
+    let e := b.end - 1
+    let h := if exceeds F.shrinkStrict ((Ring.len h r : Int) - e) (b.bsize * F.shrinkFactor)
+      then (unlink h (move h r (e + F.shrinkAt)) b.bsize).1 else h
+    ({ b with heap := h, ring := r, «end» := e }, vl h r)
+
+def Buf.stepF (F : BufferedFacts) (b : Buf) : BOp → Buf × BOut
+  | .append v => (b.appendBackF F v, .unit)
+  | .removeFront => let (b, v) := b.removeFrontF F; (b, .val v)
+  | .front => (b, .val b.front)
+  | .len => (b, .int b.len)
+  | .range s => (b, .vals (b.range (stopFn s)))
+
+def Buf.runF (F : BufferedFacts) (b : Buf) : List BOp → List BOut
+  | [] => []
+  | op :: ops => let (b', o) := b.stepF F op; o :: Buf.runF F b' ops
+
+end facts
 
 end Kit.Ring
